@@ -47,7 +47,7 @@ def run_jobs(jobs, nproc=None, deadline=None, chunk=300, known=(), xval=2, timeo
     timed_out = False
     inflight = 0
     done_q = []
-    with ctx.Pool(nproc, maxtasksperchild=40) as pool:
+    with ctx.Pool(nproc, maxtasksperchild=1) as pool:  # fresh z3 context per job: reproducible solver behaviour
         def submit(j):
             nonlocal inflight
             inflight += 1
